@@ -40,6 +40,11 @@ def _points(pts, form):
     for bc, m in pts:
         if form == 'Mach':
             out.append(pb.BCPoint(bc, Mach=m))
+        elif form.startswith('bare:'):
+            # a bare number is a velocity in the preferred velocity unit in force when the point is built
+            u = pb.Unit[form[5:]]
+            pb.PreferredUnits.velocity = u
+            out.append(pb.BCPoint(bc, V=pb.Unit.MPS(m * SPEED_OF_SOUND_MPS) >> u))
         else:
             u = pb.Unit[form]
             out.append(pb.BCPoint(bc, V=u(pb.Unit.MPS(m * SPEED_OF_SOUND_MPS) >> u)))
@@ -246,6 +251,9 @@ def plan(tier):
                 law_cells.append([t, pl, 'Mach', wd])
     for form in ('FPS', 'MPS', 'KMH'):
         for pl in pls:
+            law_cells.append(['G7', pl, form, False])
+    for form in ('bare:FPS', 'bare:MPS', 'bare:KMH', 'bare:KT'):
+        for pl in pls[::4]:
             law_cells.append(['G7', pl, form, False])
     if tier == 'quick':
         for t in TABLES[2:]:
